@@ -975,8 +975,24 @@ static void build_expr(WorkList *list, ASTNode *expr, Environment *env) {
                                        op == TOKEN_STAR || op == TOKEN_SLASH || op == TOKEN_PERCENT ||
                                        op == TOKEN_AND || op == TOKEN_OR);
                     
+                    /* A comparison whose operand is itself a comparison, e.g. (== (< a b) (< c d)), must keep the
+                     * operand's grouping: C parses `a < b == c < d` as `((a < b) == c) < d`. */
+                    bool is_cmp = (op == TOKEN_EQ || op == TOKEN_NE || op == TOKEN_LT ||
+                                   op == TOKEN_LE || op == TOKEN_GT || op == TOKEN_GE);
+                    bool wrap_operand[2] = { false, false };
+                    for (int oi = 0; oi < 2 && is_cmp; oi++) {
+                        ASTNode *operand = expr->as.prefix_op.args[oi];
+                        if (operand && operand->type == AST_PREFIX_OP && operand->as.prefix_op.arg_count == 2) {
+                            TokenType oop = operand->as.prefix_op.op;
+                            wrap_operand[oi] = (oop == TOKEN_EQ || oop == TOKEN_NE || oop == TOKEN_LT ||
+                                                oop == TOKEN_LE || oop == TOKEN_GT || oop == TOKEN_GE);
+                        }
+                    }
+
                     if (needs_parens) emit_literal(list, "(");
+                    if (wrap_operand[0]) emit_literal(list, "(");
                     build_expr(list, expr->as.prefix_op.args[0], env);
+                    if (wrap_operand[0]) emit_literal(list, ")");
                     
                     const char *op_str = NULL;
                     switch (op) {
@@ -996,7 +1012,9 @@ static void build_expr(WorkList *list, ASTNode *expr, Environment *env) {
                         default: op_str = " OP "; break;
                     }
                     emit_literal(list, op_str);
+                    if (wrap_operand[1]) emit_literal(list, "(");
                     build_expr(list, expr->as.prefix_op.args[1], env);
+                    if (wrap_operand[1]) emit_literal(list, ")");
                     if (needs_parens) emit_literal(list, ")");
                 }
             } else if (arg_count == 1) {
